@@ -51,6 +51,9 @@ structure Row where
   clauses : List (Nat × Ops)
   deriving Repr, DecidableEq
 
+/-- name used for an argument that the result block adds to the Fortran API (`arg_name`: the capsule) -/
+def resultArgName : Nat := 9999
+
 def Row.ofRaw (r : Gen.FStmts.RawRow) : Row :=
   let fl := r.2.2.2.1
   { path := r.1, bufArgs := r.2.1, bufExtra := r.2.2.1,
@@ -296,7 +299,8 @@ def Row.cspec (r : Row) (cfi : Bool) : CSpec :=
 
 /-- Fortran side at entry: `f_var` holds the actual; without `c_local_var` the name `c_var` IS `f_var` -/
 def fInit (F : FSpec) (actual : Val) : St :=
-  ⟨[(0, actual)], if F.cLocal then [] else [(1, 0)], 0, 0⟩
+  if F.cLocal then ⟨[(0, actual), (1, .null)], [], 0, 0⟩   -- the local `SH_<name>` starts undefined
+  else ⟨[(0, actual)], [(1, 0)], 0, 0⟩
 
 /-- where the C wrapper finds the caller's storage: the parameter `c_var`, or the descriptor -/
 def CSpec.storage (C : CSpec) : Nat := if C.cfi then 10 else 1
@@ -387,6 +391,15 @@ def runFtrim (actual : Val) : Res Outcome :=
   match actual with
   | .buf t => .ok ⟨some (.buf (ftrimCharIn t)), .buf t, 0⟩
   | _ => .oob
+
+/-- reference semantics of the Fortran inquiry functions used by `+implied(...)` and by the
+    `len` / `len_trim` / `size` actuals (1 size, 2 len, 3 len_trim) -/
+def inquiry (f : Nat) (v : Val) : Option Int :=
+  match f, v with
+  | 1, .arr a => some a.length
+  | 2, .buf t => some t.length
+  | 3, .buf t => some (rtrim t).length
+  | _, _ => none
 
 /-! ## 4. assembly of one wrapper: `wrap_function_impl` -/
 
@@ -496,10 +509,12 @@ def paramActuals (rows : List Row) (fn : Fn) (p : Param) : List Actual :=
   else
     let fr := lookup rows (fPathArg p fn.genSuffix)
     let cr := lookup rows (cPathArg p fn.genSuffix)
-    if ¬ (fr.clause 5).isEmpty then (fr.clause 5).map (argCCall p.name)
+    -- a result passed as an extra argument is not in the API: its `f_var` is the result variable (name 0)
+    let n := if p.isFArg fn then p.name else 0
+    if ¬ (fr.clause 5).isEmpty then (fr.clause 5).map (argCCall n)
     else
-      let cv : Actual := if fr.fLocal then .local_ p.name else if p.isFArg fn then .var p.name else .result
-      (if cr.bufArgs.isEmpty then [1] else cr.bufArgs).map (bufActual p cv p.name)
+      let cv : Actual := if fr.fLocal then .local_ n else if p.isFArg fn then .var n else .result
+      (if cr.bufArgs.isEmpty then [1] else cr.bufArgs).map (bufActual p cv n)
 
 /-- does the parameter appear in the Fortran argument list -/
 def Param.visible (fn : Fn) (p : Param) : Bool :=
@@ -510,6 +525,14 @@ def paramMatched (rows : List Row) (fn : Fn) (p : Param) : List (List Nat × Lis
   if p.isFArg fn ∧ (p.ftrim ∨ p.assumedType ∨ p.funPtr ∨ p.implied ≠ 0) then []
   else [(fPathArg p fn.genSuffix, (lookup rows (fPathArg p fn.genSuffix)).path),
         (cPathArg p fn.genSuffix, (lookup rows (cPathArg p fn.genSuffix)).path)]
+
+/-- the names an ordinary visible parameter adds to the Fortran argument list.  The emitter has
+    a quirk here: when the argument's block has `arg_decl` and the RESULT block has `arg_name`,
+    the result's names are appended instead of the argument's own name. -/
+def apiNames (rows : List Row) (fn : Fn) (p : Param) : List Nat :=
+  if (lookup rows (fPathArg p fn.genSuffix)).argDecl ∧ ¬ ((lookup rows (fPathRes fn)).clause 9).isEmpty then
+    ((lookup rows (fPathRes fn)).clause 9).map (fun _ => resultArgName)
+  else [p.name]
 
 /-- the parameter loop of wrap_function_impl, written as the emitter writes it: three
     accumulators, early `continue` for the special branches -/
@@ -526,7 +549,7 @@ def paramLoop (rows : List Row) (fn : Fn) :
     else if p.isFArg fn ∧ p.implied = 2 then
       paramLoop rows fn ps (names, acts ++ [.local_ p.name], ms)
     else
-      let names' := if p.isFArg fn ∧ ¬ p.hidden then names ++ [p.name] else names
+      let names' := if p.isFArg fn ∧ ¬ p.hidden then names ++ apiNames rows fn p else names
       paramLoop rows fn ps (names', acts ++ paramActuals rows fn p, ms ++ paramMatched rows fn p)
 
 def resultActual (b : Nat) : Actual :=
@@ -541,6 +564,7 @@ def assembleF (rows : List Row) (fn : Fn) : Asm :=
   let pre : List Actual := if fn.cFunction then cr.bufArgs.map resultActual else []
   let (names, acts, ms) := paramLoop rows fn fn.params (this, thisA ++ pre, [(fPathRes fn, fr.path), (cPathRes fn, cr.path)])
   let post : List Actual := if fn.fFunction then cr.bufExtra.map resultActual else []
+  let names := if fn.fFunction ∧ fr.argDecl then names ++ (fr.clause 9).map (fun _ => resultArgName) else names
   { fargs := names, actuals := acts ++ post, matched := ms, needWrapper := fn.kind ≠ 0 }
 
 /-! ## 5. clones, routing and generic interfaces -/
